@@ -29,7 +29,7 @@ def announce_scenario(rng, n, plens, outgoing):
 class C11(HndBase):
     id = "C11"
     proof_target = "Props/C11.vo"
-    theorems = ["C11_bitfield", "C11_broadcast", "C11_owned_is_broadcast", "C11_have_stays", "C11_actions", "C11_held_back", "C11_sent_at_once", "C11_flush"]
+    theorems = ["C11_bitfield", "C11_broadcast", "C11_owned_is_broadcast", "C11_have_stays", "C11_actions", "C11_held_back", "C11_sent_at_once", "C11_flush", "C11_announcements_complete"]
     coq_header = ("From Rdest Require Import Base Consts Wire Manager Handler Corr.Hnd.\nOpen Scope N_scope.\n"
                   "Definition codes := codes11.\n")
     rule = ("interleavings of SendHave broadcasts (piece completions on other connections) with handshakes, chokes and "
